@@ -674,7 +674,7 @@ def run(ctx):
                        "NF and the DSL are not modelled in Coq for this property (oracle only)", "TSV reader: only well-formed files (no ragged/duplicate/blank lines)"]
     ctx.cov["correspondence"] = {}
     forbidden_gate(ctx, ["Base", "C05"])
-    ok, why = check_props(ctx, "C05/Props.v", ["C05/Harness.vo", "C05/Proofs.vo"])
+    ok, why = check_props(ctx, "C05/Props.v", ["C05/Harness.vo", "C05/Proofs.vo", "C05/CtxProofs.vo"])
     nviol = len(ctx.violations)
     tmp = tempfile.mkdtemp(prefix="verif-c05-")
     try:
